@@ -32,13 +32,14 @@ func (c05) Batches(tier string, seed uint64) []core.Batch {
 	b = append(b, spread("grammar", 8, tierN(tier, 5000, 25000))...)
 	b = append(b, spread("mutant", 8, tierN(tier, 10000, 50000))...)
 	b = append(b, spread("raw", 4, tierN(tier, 10000, 50000))...)
+	b = append(b, spread("big", 4, tierN(tier, 2, 8))...)
 	b = append(b, spread("arch", 4, 0)...)
 	b = append(b, spread("exh", 16, 0)...)
 	return b
 }
 
 func (c05) Mandatory(tier string) []string {
-	return []string{"accepted:grammar", "accepted:mutant", "accepted:raw", "accepted:exhaustive", "has:substvar", "has:qualifier", "has:version", "has:archlist", "has:negated-archlist",
+	return []string{"accepted:grammar", "accepted:mutant", "accepted:raw", "accepted:exhaustive", "accepted:big", "big:field>=12KiB", "has:substvar", "has:qualifier", "has:version", "has:archlist", "has:negated-archlist",
 		"has:profiles", "has:non-ascii", "has:wildcard-arch", "arch:arity1", "arch:arity2", "arch:arity3", "arch:arity4", "arch:wildcard", "arch:real-port"}
 }
 
@@ -127,6 +128,37 @@ func (p c05) RunBatch(t *core.T, b core.Batch) {
 			}
 			s := string(bs)
 			t.Case("dep", []byte(s), func(c *core.C) { p.fix(c, s, "mutant") })
+		}
+	case "big":
+		// long fields in compact spelling: the rendering is longer than the input (" | ", ", "), so anything
+		// that depends on the length of the text (buffers, limits) sees the two parses differently
+		for i := 0; i < b.N; i++ {
+			var sb strings.Builder
+			n := r.Pick3(3000, 9000, 14000)
+			switch (i + b.Arg) % 4 {
+			case 0:
+				for k := 0; k < n; k++ {
+					sb.WriteString(r.Pick([]string{"p|q,", "a|b|c,", "x,"}))
+				}
+			case 1: // one relation with thousands of alternatives
+				for k := 0; k < n; k++ {
+					sb.WriteString("alt" + fmt.Sprint(k%97) + "|")
+				}
+				sb.WriteString("last")
+			case 2: // one architecture list with thousands of entries
+				sb.WriteString("foo[")
+				for k := 0; k < n; k++ {
+					sb.WriteString(r.Pick(gen.ArchNames) + " ")
+				}
+				sb.WriteString("]")
+			default: // versioned relations, compact
+				for k := 0; k < n; k++ {
+					sb.WriteString("lib" + fmt.Sprint(k%13) + "(>=" + fmt.Sprint(k) + "),")
+				}
+			}
+			s := sb.String()
+			t.Cover("big:field>=12KiB")
+			t.Case("dep", []byte(s), func(c *core.C) { p.fix(c, s, "big") })
 		}
 	case "raw":
 		alpha := "ab01 ,|()[]<>!${}:=<>~-.\t\n\xe9\xc3\xa9\x00\x80"
